@@ -79,7 +79,13 @@ class Scripted:
                 ans = me.ans_b[me.kb] if me.kb < len(me.ans_b) else None
                 me.kb += 1
                 if ans is None:
-                    prob._last_solution = _Sol('infeasible')
+                    # a failed solve: sometimes the solver leaves its last (meaningless) iterate in the variables
+                    if me.kb % 2 == 0:
+                        Pv = prob.variables['P']
+                        Pv.value = float(80 + me.kb) * np.eye(Pv.shape[0])
+                        prob._last_solution = _Sol('unknown')
+                    else:
+                        prob._last_solution = _Sol('infeasible')
                     return prob._last_solution
                 Pv = prob.variables['P']
                 Pv.value = float(ans) * np.eye(Pv.shape[0])
@@ -89,7 +95,13 @@ class Scripted:
             ans = me.ans_a[me.ka] if me.ka < len(me.ans_a) else None
             me.ka += 1
             if ans is None:
-                prob._last_solution = _Sol('primal infeasible')
+                if me.ka % 2 == 1:
+                    for name, var in prob.variables.items():
+                        var.value = (float(90 + me.ka) * np.ones(var.shape)) if name != 'gamma' else float(90 + me.ka)
+                    prob._verif_value = -1000.0
+                    prob._last_solution = _Sol('unknown')
+                else:
+                    prob._last_solution = _Sol('primal infeasible')
                 return prob._last_solution
             tag, obj = ans
             for name, var in prob.variables.items():
